@@ -58,12 +58,13 @@ func TestPlan(t *testing.T) {
 	p.Assumptions = []string{
 		"checks run as root so that spok can be executed as uid 65534 inside a sandbox tree; nothing outside the sandbox is writable for it",
 	}
+	prefix := "bin"
 	binShards := func(test string, quickN, quickChecks, thorN, thorChecks int) {
 		n, c := quickN, quickChecks
 		if ev.Thorough() {
 			n, c = thorN, thorChecks
 		}
-		sh := ev.RapidShards("bin", test, n, c, nil)
+		sh := ev.RapidShards(prefix, test, n, c, nil)
 		for i := range sh {
 			sh[i].TimeoutS = 3600
 		}
@@ -94,6 +95,10 @@ func TestPlan(t *testing.T) {
 		// output globs through the CLI: --clean removes exactly the files the pattern denotes
 		p.Rule = "binary leg: project trees x spokfiles whose outputs are glob patterns only (incl. patterns whose matches are string-prefix siblings such as bin/app and bin/app.sha256); `spok --clean` must remove exactly the files the reference matcher says each pattern denotes"
 		binShards("^TestCleanGlobs$", 8, 40, 16, 500)
+		// dependency globs through the CLI: which edits make a task run again
+		p.Rule += "; and the incremental-run leg of C01/C02 (programs with glob dependencies, spokfile optionally a symbolic link into another directory, optionally run from elsewhere with --spokfile, files of the same names edited outside the project): a task runs again exactly when a file its pattern denotes was edited"
+		prefix = "binskip"
+		binShards("^TestSkipBinary$", 8, 40, 16, 400)
 	case "C14":
 		// the binary leg of C14: --force with explicitly and implicitly selected tasks (default task, clean task)
 		p.Rule = "binary leg: programs of 1-3 tasks (file dependencies, task dependencies) run once so that every task is cached, then run with --force selected by name, through the default task (`spok --force`) or through a user-defined clean task (`spok --clean --force`), optionally with --json/--quiet; every task of the closure must execute again and none be reported skipped"
